@@ -105,8 +105,107 @@ pub fn describe_range(hr: &HandRange, with_eval: bool) -> String {
     out
 }
 
+/// compile-time: the public types can be moved to and shared between threads
+#[allow(dead_code)]
+fn assert_send_sync<T: Send + Sync>() {}
+#[allow(dead_code)]
+fn static_assertions() {
+    assert_send_sync::<espada::evaluator::FlopExhaustiveEvaluator>();
+    assert_send_sync::<<espada::evaluator::FlopExhaustiveEvaluator as IntoIterator>::IntoIter>();
+    assert_send_sync::<espada::evaluator::Showdown>();
+    assert_send_sync::<espada::evaluator::MadeHand>();
+    assert_send_sync::<HandRange>();
+    assert_send_sync::<HandRangeToken>();
+    assert_send_sync::<CardPair>();
+    assert_send_sync::<RankPair>();
+    assert_send_sync::<espada::card::Card>();
+}
+
+/// c15 <seed> <k> | <iter args 1> | <iter args 2> ... : k evaluators, solo vs interleaved vs one thread each
+fn op_c15(a: &[&str]) -> String {
+    use crate::ops2::{build_ranges, parse_iter, show_showdown};
+    let seed: u64 = a[0].parse().unwrap();
+    let mut reqs = vec![];
+    let mut cur: Vec<&str> = vec![];
+    for t in &a[2..] {
+        if *t == "|" {
+            if !cur.is_empty() {
+                reqs.push(parse_iter(&cur));
+                cur = vec![];
+            }
+        } else {
+            cur.push(t);
+        }
+    }
+    if !cur.is_empty() {
+        reqs.push(parse_iter(&cur));
+    }
+    let k = reqs.len();
+    let mut inputs = vec![];
+    for r in &reqs {
+        match build_ranges(r) {
+            Some((players, _)) => inputs.push(players),
+            None => return "bad-request".to_string(),
+        }
+    }
+    let res = guarded(|| {
+        // solo
+        let solo: Vec<Vec<String>> = (0..k)
+            .map(|i| make_evaluator(&reqs[i], &inputs[i]).into_iter().map(|sd| show_showdown(&sd)).collect())
+            .collect();
+        // interleaved call by call under a seeded schedule; three further calls after each instance's first None
+        let mut rng = Rng(seed);
+        let mut its: Vec<_> = (0..k).map(|i| make_evaluator(&reqs[i], &inputs[i]).into_iter()).collect();
+        let mut out: Vec<Vec<String>> = vec![vec![]; k];
+        let mut nones = vec![0usize; k];
+        let mut inter_ok = true;
+        while nones.iter().any(|n| *n < 3) {
+            let live: Vec<usize> = (0..k).filter(|i| nones[*i] < 3).collect();
+            let i = live[rng.below(live.len() as u64) as usize];
+            match its[i].next() {
+                Some(sd) => {
+                    if nones[i] > 0 {
+                        inter_ok = false;
+                    }
+                    out[i].push(show_showdown(&sd));
+                }
+                None => nones[i] += 1,
+            }
+        }
+        if out != solo {
+            inter_ok = false;
+        }
+        // one thread per evaluator, inputs shared through Arc like the multi-thread example does
+        let shared = std::sync::Arc::new((reqs.iter().map(|r| (r.board, r.scope, r.set_scope)).collect::<Vec<_>>(), inputs.clone()));
+        let mut handles = vec![];
+        for i in 0..k {
+            let sh = shared.clone();
+            handles.push(std::thread::spawn(move || {
+                let (meta, inputs) = &*sh;
+                let req = IterReq { mode: "digest".to_string(), nextra: 0, board: meta[i].0, scope: meta[i].1, set_scope: meta[i].2, ranges: vec![] };
+                make_evaluator(&req, &inputs[i]).into_iter().map(|sd| show_showdown(&sd)).collect::<Vec<String>>()
+            }));
+        }
+        let mut threads_ok = true;
+        for (i, h) in handles.into_iter().enumerate() {
+            match h.join() {
+                Ok(v) => {
+                    if v != solo[i] {
+                        threads_ok = false;
+                    }
+                }
+                Err(_) => threads_ok = false,
+            }
+        }
+        let ns: Vec<String> = solo.iter().map(|v| v.len().to_string()).collect();
+        format!("ok k={} inter={} threads={} n={}", k, inter_ok as u8, threads_ok as u8, ns.join(","))
+    });
+    res.unwrap_or_else(|| "panic".to_string())
+}
+
 pub fn run_op3(op: &str, a: &[&str]) -> Option<String> {
     match op {
+        "c15" => Some(op_c15(a)),
         "parse_token" => {
             let s = unhex_str(a[0]);
             Some(match guarded(|| HandRangeToken::from_str(&s)) {
